@@ -90,7 +90,12 @@ def lengths(kind, n):
 # one stagnant layer.  1, 2: first-order exchange given with -stagnant (exchange factor, th_m, th_im) + kg water in the immobile
 # cells; 3: '-stagnant 1' with the mobile/immobile exchange written as explicit, symmetric MIX blocks (the way the manual
 # prescribes for multicomponent diffusion; the engine then prints no usage warning), fraction MIXF, 1 kg water everywhere
-STAG = {0: None, 1: (6.8e-6, 0.2, 0.2, 1.0), 2: (6.8e-6, 0.2, 0.1, 0.5), 3: ("mix", 0.1, None, 1.0)}
+# 4: two stagnant layers, '-stagnant 2', explicit symmetric MIX blocks mobile <-> layer 1 (MIXF 0.1) and layer 1 <-> layer 2 (0.25)
+STAG = {0: None, 1: (6.8e-6, 0.2, 0.2, 1.0), 2: (6.8e-6, 0.2, 0.1, 0.5), 3: ("mix", 0.1, None, 1.0), 4: ("mix2", 0.1, 0.25, 1.0)}
+
+
+def stag_layers(stag_id):
+    return 0 if not stag_id else (2 if STAG[stag_id][0] == "mix2" else 1)
 
 
 def build_input(c):
@@ -132,6 +137,15 @@ def build_input(c):
                 k = i + 1 + n
                 t.append("MIX %d\n %d %r\n %d %r" % (i, i, 1 - f, k, f))
                 t.append("MIX %d\n %d %r\n %d %r" % (k, k, 1 - f, i, f))
+        if stag[0] == "mix2":
+            f1, f2 = stag[1], stag[2]
+            for i in range(1, n + 1):
+                t.append("SOLUTION %d\n %s\n -water %r" % (i + 1 + 2 * n, SOL[cell_solution(c["pat"], i + 2, n)], stag[3]))
+            for i in range(1, n + 1):
+                k1, k2 = i + 1 + n, i + 1 + 2 * n
+                t.append("MIX %d\n %d %r\n %d %r" % (i, i, 1 - f1, k1, f1))
+                t.append("MIX %d\n %d %r\n %d %r\n %d %r" % (k1, k1, 1 - f1 - f2, i, f1, k2, f2))
+                t.append("MIX %d\n %d %r\n %d %r" % (k2, k2, 1 - f2, k1, f2))
     if solid == "exchange":
         for i in range(1, n + 1):
             t.append("EXCHANGE %d\n X 0.0015\n -equilibrate %d" % (i, i))
@@ -146,7 +160,7 @@ def build_input(c):
         t.append("ADVECTION\n -cells %d\n -shifts %d\n -time_step %r\n -punch_cells 1-%d\n -punch_frequency 1\n -print_frequency 1000" % (
             n, c["shifts"], c["dt"], n))
     else:
-        lastcell = 2 * n + 1 if stag else n + 1
+        lastcell = (1 + stag_layers(c.get("stag", 0))) * n + 1
         tr = ["TRANSPORT", "-cells %d" % n, "-shifts %d" % c["shifts"], "-time_step %r" % c["dt"],
               "-flow_direction %s" % c["dir"], "-boundary_conditions %s %s" % tuple(c["bc"]),
               "-lengths " + " ".join("%r" % x for x in lengths(c["len"], n)),
@@ -155,7 +169,7 @@ def build_input(c):
         if c.get("cd"):
             tr.append("-correct_disp true")
         if stag:
-            tr.append("-stagnant 1" if stag[0] == "mix" else "-stagnant 1 %r %r %r" % stag[:3])
+            tr.append("-stagnant 1" if stag[0] == "mix" else "-stagnant 2" if stag[0] == "mix2" else "-stagnant 1 %r %r %r" % stag[:3])
         mode = c.get("mode", "plain")
         if mode in ("mcd", "implicit"):
             tr.append("-multi_d true 1e-9 0.3 0.05 1.0")
@@ -240,7 +254,7 @@ def run_case(case):
     d = DIRS[case["dir"]] if case["fam"] == "TR" else 1
     stag = case.get("stag", 0)
     solid = case.get("solid", "none")
-    cells = list(range(1, n + 1)) + (list(range(n + 2, 2 * n + 2)) if stag else [])
+    cells = list(range(1, n + 1)) + [k for layer in range(1, stag_layers(stag) + 1) for k in range(layer * n + 2, (layer + 1) * n + 2)]
     # ---- vacuity guards on the observable: every expected row must be there (harness error otherwise)
     for k in range(0, n + 2):
         if k not in init:
@@ -356,7 +370,7 @@ def families(tier):
         DDT = [(0.0, 1e3), (1e-9, 1e3), (1e-9, 1e6)]
         # D1: diffusion only, one diffusion coefficient: inventory (closed, equal lengths) + convexity (all)
         fam.append(("diffusion-only, single D", P(
-            "TR", n=N, len=LEN3, D_dt=DDT[1:] + [(3e-10, 1e6)], shifts=SH, dir=["diffusion_only"], bc=BC2, stag=[0, 1, 2, 3], pat=PATTERNS,
+            "TR", n=N, len=LEN3, D_dt=DDT[1:] + [(3e-10, 1e6)], shifts=SH, dir=["diffusion_only"], bc=BC2, stag=[0, 1, 2, 3, 4], pat=PATTERNS,
             inflow=[0], disp=[0.0], mode=["plain"])))
         # D2: diffusion only, multicomponent (explicit / implicit), closed column: inventory
         fam.append(("diffusion-only, multicomponent", P(
@@ -386,7 +400,7 @@ def families(tier):
         N, NL, SH = [1, 2, 3, 5, 8], [20, 40], [1, 3, 10]
         DDT = [(0.0, 1e3), (3e-10, 1e3), (1e-9, 1e3), (3e-10, 1e6), (1e-9, 1e6)]
         fam.append(("diffusion-only, single D", P(
-            "TR", n=N, len=LEN3, D_dt=DDT[1:], shifts=SH, dir=["diffusion_only"], bc=BC2, stag=[0, 1, 2, 3], pat=PATTERNS,
+            "TR", n=N, len=LEN3, D_dt=DDT[1:], shifts=SH, dir=["diffusion_only"], bc=BC2, stag=[0, 1, 2, 3, 4], pat=PATTERNS,
             inflow=[0, 1], disp=[0.0], mode=["plain"])))
         fam.append(("diffusion-only, single D, long columns", P(
             "TR", n=NL, len=LEN3, D_dt=DDT[1:], shifts=[10], dir=["diffusion_only"], bc=BC2, stag=[0, 1], pat=PATTERNS,
